@@ -7,6 +7,7 @@ pub mod common;
 pub mod c05;
 pub mod c10;
 pub mod c11;
+pub mod c11x;
 pub mod c12;
 pub mod c13;
 pub mod c14;
@@ -15,4 +16,4 @@ pub mod c16;
 pub mod c16_views_gen;
 pub mod c19;
 
-pub const TABLES: &[&[(&str, fn())]] = &[c05::TABLE, c10::TABLE, c11::TABLE, c12::TABLE, c13::TABLE, c14::TABLE, c15::TABLE, c16::TABLE, c19::TABLE];
+pub const TABLES: &[&[(&str, fn())]] = &[c05::TABLE, c10::TABLE, c11::TABLE, c11x::TABLE, c12::TABLE, c13::TABLE, c14::TABLE, c15::TABLE, c16::TABLE, c19::TABLE];
